@@ -151,6 +151,12 @@ class Sandbox:
             return self.emit("weed", ctx, ok=True, table=self.nk(outn))
         return self.emit("weed", ctx, ok=False, err=se.decode(errors="replace")[-200:])
 
+    def load_event(self, file):
+        """Both library loaders on the saved file + the k_bits the file reports (C09)."""
+        ev = vlib.skav("exec", [{"op": "load", "path": self.path(file)}])[0]
+        t = self.nk(file)
+        return self.emit("load", {"file": file}, as64=ev["as64"], as128=ev["as128"], k_bits=(t or {}).get("k_bits", 0))
+
     # ---- observing commands -----------------------------------------------------------
     def nk_event(self, file):
         t = self.nk(file)
